@@ -1,7 +1,104 @@
 package main
 
+import (
+	"fmt"
+	"io/ioutil"
+	"os"
+	"path/filepath"
+	"regexp"
+	"sort"
+	"strings"
+)
+
+var extraEnv []string
+
+// runC18: canary, race phase (race build, production library), snapshot phase (verif build).
 func runC18(res *result) {
-	// filled in with the C18 driver
-	runPhase(worker, "main", res)
-	c18Expected = nshards
+	raceShards := nshards
+	if raceShards > 8 {
+		raceShards = 8
+	}
+	saved := nshards
+	// 1. canary: the detector must report a deliberate race on a harness-owned variable
+	canaryLog := filepath.Join(workDir, "canary")
+	extraEnv = []string{"VERIF_C18_CANARY=1", "GORACE=halt_on_error=0 log_path=" + canaryLog}
+	runWorker(raceWkr, []string{"-prop", "C18", "-tier", tier, "-seed", fmt.Sprint(seed), "-only", "canary", "-out", filepath.Join(workDir, "canary.jsonl")}, filepath.Join(workDir, "canary.stderr"))
+	canaryReports := countRaceReports(canaryLog)
+	res.tallies["race_canary_reports"] = int64(canaryReports)
+	if canaryReports == 0 {
+		res.inconclusive = append(res.inconclusive, "race detector canary: a deliberate race on a harness variable was not reported - the detector is not working here")
+	}
+	// 2. race phase
+	nshards = raceShards
+	extraEnv = []string{"GORACE=halt_on_error=0 log_path=" + filepath.Join(workDir, "racelog")}
+	runPhase(raceWkr, "race", res)
+	done := res.shardsDone
+	blocks := readRaceReports(filepath.Join(workDir, "racelog"))
+	res.tallies["race_reports_total"] = int64(len(blocks))
+	seen := map[string]int{}
+	for _, b := range blocks {
+		sig, lib := raceSignature(b)
+		if !lib {
+			res.inconclusive = append(res.inconclusive, "race report without a library frame (harness race?): "+oneLine(b, 300))
+			continue
+		}
+		seen[sig]++
+		if seen[sig] == 1 {
+			res.viols = append(res.viols, violation{ID: "race/all", Kind: "data-race", Sig: sig, Detail: b})
+		}
+	}
+	res.tallies["race_reports_distinct_library_sites"] = int64(len(seen))
+	// 3. snapshot phase (verif build, no race detector)
+	nshards = saved
+	extraEnv = nil
+	runPhase(worker, "snap", res)
+	c18Expected = raceShards + saved
+	_ = done
+}
+
+func countRaceReports(prefix string) int { return len(readRaceReports(prefix)) }
+
+func readRaceReports(prefix string) []string {
+	files, _ := filepath.Glob(prefix + ".*")
+	sort.Strings(files)
+	var out []string
+	for _, f := range files {
+		b, err := ioutil.ReadFile(f)
+		if err != nil {
+			continue
+		}
+		parts := strings.Split(string(b), "==================")
+		for _, p := range parts {
+			if strings.Contains(p, "WARNING: DATA RACE") {
+				out = append(out, strings.TrimSpace(p))
+			}
+		}
+	}
+	return out
+}
+
+var frameRe = regexp.MustCompile(`(?m)^  (github\.com/makiuchi-d/gozxing[^\n]*?)\(\)\s*$`)
+
+// raceSignature: the innermost library function of each of the first two stacks, sorted.
+func raceSignature(block string) (string, bool) {
+	stacks := regexp.MustCompile(`(?m)^(Write|Read|Previous write|Previous read)[^\n]*\n`).Split(block, -1)
+	var fns []string
+	for _, s := range stacks[1:] {
+		if m := frameRe.FindStringSubmatch(s); m != nil {
+			fn := strings.TrimPrefix(m[1], "github.com/makiuchi-d/gozxing")
+			fns = append(fns, strings.TrimLeft(fn, "/."))
+		}
+		if len(fns) == 2 {
+			break
+		}
+	}
+	if len(fns) == 0 {
+		return "", false
+	}
+	sort.Strings(fns)
+	return "race:" + strings.Join(fns, "|"), true
+}
+
+func init() {
+	_ = os.Getenv
 }
